@@ -111,6 +111,8 @@ pub enum Fault {
     /// the next write accepts only `short` bytes (0: skip this part), the write call after it fails
     /// once with ErrorKind::Interrupted; later writes work again
     WriteInterruptedOnce { short: usize },
+    /// the n-th write from now on (0 = the next one) and all later ones accept no bytes: Ok(0)
+    WriteZeroAfter(usize),
 }
 
 #[derive(Debug, Clone, Serialize, Deserialize, PartialEq)]
@@ -182,6 +184,23 @@ pub struct Script {
     /// looks at events now and then must not make requests hang)
     #[serde(default)]
     pub events_polled_last: bool,
+    /// which io::ErrorKind injected read/write errors carry (0 ConnectionReset, 1 UnexpectedEof,
+    /// 2 BrokenPipe, 3 TimedOut, 4 Other, 5 ConnectionAborted, 6 InvalidData, 7 NotConnected)
+    #[serde(default)]
+    pub error_kind: u8,
+    /// Advance steps also let this many milliseconds of REAL time pass (capped per step): code that
+    /// reads the wall clock instead of the runtime's clock sees time move
+    #[serde(default)]
+    pub real_ms_per_advance: u16,
+    /// a second, unrelated connection lives on the same thread: it keeps receiving (and abandoning)
+    /// partial responses of its own
+    #[serde(default)]
+    pub noise_connection: bool,
+}
+
+pub fn error_kind(k: u8) -> io::ErrorKind {
+    use io::ErrorKind::*;
+    [ConnectionReset, UnexpectedEof, BrokenPipe, TimedOut, Other, ConnectionAborted, InvalidData, NotConnected][k as usize % 8]
 }
 
 impl Script {
@@ -191,7 +210,7 @@ impl Script {
     }
 
     pub fn new(steps: Vec<Step>) -> Script {
-        Script { sched_seed: 1, seg: SegPattern::Whole, replies: Vec::new(), steps, max_write: None, picture: None, broken_pipe: true, greeting: None, lazy_events: false, version: None, vectored: false, events_polled_last: false }
+        Script { sched_seed: 1, seg: SegPattern::Whole, replies: Vec::new(), steps, max_write: None, picture: None, broken_pipe: true, greeting: None, lazy_events: false, version: None, vectored: false, events_polled_last: false, error_kind: 0, real_ms_per_advance: 0, noise_connection: false }
     }
 }
 
@@ -284,6 +303,8 @@ pub struct Shared {
     pub all_written: Vec<u8>,
     vectored: bool,
     pub vectored_writes: usize,
+    error_kind: u8,
+    write_zero: bool,
 }
 
 pub type Handle = Arc<Mutex<Shared>>;
@@ -403,6 +424,10 @@ impl Shared {
             Fault::EofAfter(k) => self.eof_at = Some(self.outbox.len().max(self.read_pos) + k),
             Fault::ReadErrorAfter(k) => self.read_err_at = Some(self.read_pos + k),
             Fault::WriteErrorAfter(k) => self.write_err_countdown = Some(*k),
+            Fault::WriteZeroAfter(k) => {
+                self.write_err_countdown = Some(*k);
+                self.write_zero = true;
+            }
             Fault::WriteInterruptedOnce { short } => self.write_interrupt = Some((*short, *short == 0)),
             Fault::Garbage(g) => {
                 let mut l = g.0.clone();
@@ -724,7 +749,7 @@ impl AsyncRead for SimIo {
             if s.read_pos >= k {
                 s.activity += 1;
                 s.read_err_seen = true;
-                return Poll::Ready(Err(io::Error::new(io::ErrorKind::ConnectionReset, "harness: injected read error")));
+                return Poll::Ready(Err(io::Error::new(error_kind(s.error_kind), "harness: injected read error")));
             }
         }
         let mut limit = s.released;
@@ -791,7 +816,10 @@ impl AsyncWrite for SimIo {
         if let Some(c) = s.write_err_countdown {
             if c == 0 {
                 s.write_err_seen = true;
-                return Poll::Ready(Err(io::Error::new(io::ErrorKind::ConnectionReset, "harness: injected write error")));
+                if s.write_zero {
+                    return Poll::Ready(Ok(0));
+                }
+                return Poll::Ready(Err(io::Error::new(error_kind(s.error_kind), "harness: injected write error")));
             }
             s.write_err_countdown = Some(c - 1);
         }
@@ -846,6 +874,48 @@ impl AsyncWrite for SimIo {
 
     fn poll_shutdown(self: Pin<&mut Self>, _cx: &mut Context<'_>) -> Poll<io::Result<()>> {
         self.0.lock().unwrap().shutdown_called = true;
+        Poll::Ready(Ok(()))
+    }
+}
+
+/// Transport of the noise connection: a greeting, then one line of a never-ending response per read,
+/// every other read Pending (the receive is abandoned there).
+struct NoiseIo {
+    greeted: bool,
+    give: bool,
+    /// position inside the current line
+    at: usize,
+}
+
+impl AsyncRead for NoiseIo {
+    fn poll_read(mut self: Pin<&mut Self>, _cx: &mut Context<'_>, buf: &mut ReadBuf<'_>) -> Poll<io::Result<()>> {
+        if !self.greeted {
+            self.greeted = true;
+            buf.put_slice(GREETING);
+            return Poll::Ready(Ok(()));
+        }
+        const LINE: &[u8] = b"noise: 1\n";
+        if self.at == 0 {
+            self.give = !self.give;
+            if self.give {
+                return Poll::Pending;
+            }
+        }
+        let n = (LINE.len() - self.at).min(buf.remaining());
+        buf.put_slice(&LINE[self.at..self.at + n]);
+        self.at = (self.at + n) % LINE.len();
+        Poll::Ready(Ok(()))
+    }
+}
+
+impl AsyncWrite for NoiseIo {
+    fn poll_write(self: Pin<&mut Self>, _cx: &mut Context<'_>, data: &[u8]) -> Poll<io::Result<usize>> {
+        Poll::Ready(Ok(data.len()))
+    }
+    fn poll_flush(self: Pin<&mut Self>, _cx: &mut Context<'_>) -> Poll<io::Result<()>> {
+        Poll::Ready(Ok(()))
+    }
+    fn poll_shutdown(self: Pin<&mut Self>, _cx: &mut Context<'_>) -> Poll<io::Result<()>> {
         Poll::Ready(Ok(()))
     }
 }
@@ -906,6 +976,8 @@ pub fn new_io(script: &Script, password: Option<Password>) -> (SimIo, Handle) {
         all_written: Vec::new(),
         vectored: script.vectored,
         vectored_writes: 0,
+        error_kind: script.error_kind,
+        write_zero: false,
     };
     let h = Arc::new(Mutex::new(shared));
     {
@@ -1224,6 +1296,27 @@ async fn drive(script: &Script, connect: Connect) -> Observation {
     };
     obs.version = Some(root.protocol_version().to_string());
 
+    // an unrelated connection on the same thread: before every step it receives one more line of a
+    // response that never ends and abandons the receive (cancel-safe, so harmless - unless parser
+    // state is shared between connections)
+    let noise_tick = Arc::new(tokio::sync::Notify::new());
+    let noise = if script.noise_connection {
+        let tick = noise_tick.clone();
+        Some(tokio::spawn(async move {
+            let Ok(mut conn) = mpd_protocol::AsyncConnection::connect(NoiseIo { greeted: false, give: true, at: 0 }).await else { return };
+            loop {
+                tokio::select! {
+                    biased;
+                    _ = conn.receive() => {}
+                    _ = std::future::ready(()) => {}
+                }
+                tick.notified().await;
+            }
+        }))
+    } else {
+        None
+    };
+
     // event collector
     let collected: Arc<Mutex<(Vec<Ev>, bool)>> = Arc::new(Mutex::new((Vec::new(), false)));
     let gate = Arc::new(tokio::sync::Notify::new());
@@ -1260,6 +1353,8 @@ async fn drive(script: &Script, connect: Connect) -> Observation {
     settle(&h, &done).await;
 
     for (si, outer) in script.steps.iter().enumerate() {
+        noise_tick.notify_one();
+        tokio::task::yield_now().await;
         h.lock().unwrap().set_now(start.elapsed().as_millis() as u64);
         let inner: Vec<&Step> = match outer {
             Step::Together(v) => v.iter().collect(),
@@ -1304,6 +1399,9 @@ async fn drive(script: &Script, connect: Connect) -> Observation {
             }
             Step::Change(names) => h.lock().unwrap().change(names),
             Step::Advance(ms) => {
+                if script.real_ms_per_advance > 0 && *ms > 0 {
+                    std::thread::sleep(Duration::from_millis((*ms).min(u64::from(script.real_ms_per_advance))));
+                }
                 tokio::time::advance(Duration::from_millis(*ms)).await;
                 h.lock().unwrap().activity += 1;
             }
@@ -1350,6 +1448,9 @@ async fn drive(script: &Script, connect: Connect) -> Observation {
         });
     }
 
+    if let Some(n) = noise {
+        n.abort();
+    }
     // epilogue: let everything drain, then require every request to resolve in virtual time
     if !script.events_polled_last {
         gate.notify_one();
